@@ -127,9 +127,77 @@ def threshold_family(r, n):
     return out
 
 
+def ep_discovery_family(r, n):
+    """(root FEN, double step) pairs: the double step is answerable en passant (an enemy pawn stands beside the arrival
+    square) AND uncovers a check by a line piece standing behind the pawn's start square — rank, or one of the two
+    diagonals. After the step the position has an en-passant square and the side to move is in check, by a piece that
+    is not the pawn: the combination readers, writers and legality shortcuts tend to forget."""
+    out = []
+    tries = 0
+    while len(out) < n and tries < 60 * n:
+        tries += 1
+        c = r.randrange(8)
+        a = c + r.choice([-1, 1])
+        if not 0 <= a < 8:
+            continue
+        board = {(1, c): "P", (3, a): "p"}
+        kind = r.choice(["rank", "diag"])
+        if kind == "rank":
+            xs = [x for x in range(8) if x != c]
+            sx = r.choice(xs)
+            ky = r.choice([y for y in range(8) if (y - c) * (sx - c) < 0] or [None])
+            if ky is None:
+                continue
+            board[(1, sx)] = r.choice("RQ")
+            board[(1, ky)] = "k"
+            lo, hi = sorted((sx, ky))
+            if any((1, x) in board for x in range(lo + 1, hi) if x != c):
+                continue
+        else:
+            s = r.choice([-1, 1])
+            if not 0 <= c - s < 8:
+                continue
+            board[(0, c - s)] = r.choice("BQ")
+            m = r.randint(1, 6)
+            kr, kc = 1 + m, c + m * s
+            if not (0 <= kr < 8 and 0 <= kc < 8) or (kr, kc) in board:
+                continue
+            if any((1 + i, c + i * s) in board for i in range(1, m)) or (kr, kc) in ((2, c), (3, c)):
+                continue
+            board[(kr, kc)] = "k"
+        bk = next(p_ for p_, v in board.items() if v == "k")
+        spots = [(0, 0), (0, 7), (7, 0), (7, 7), (0, 4), (5, 0), (5, 7)]
+        r.shuffle(spots)
+        wk = next((s_ for s_ in spots if s_ not in board and s_ not in ((2, c), (3, c)) and max(abs(s_[0] - bk[0]), abs(s_[1] - bk[1])) > 1), None)
+        if wk is None:
+            continue
+        board[wk] = "K"
+        white = r.random() < 0.5
+        rows = []
+        for row in range(7, -1, -1):
+            s_, e = "", 0
+            for col in range(8):
+                ch = board.get((row, col)) if white else board.get((7 - row, col))
+                if ch and not white:
+                    ch = ch.swapcase()
+                if ch:
+                    s_ += (str(e) if e else "") + ch
+                    e = 0
+                else:
+                    e += 1
+            rows.append(s_ + (str(e) if e else ""))
+        mv = "abcdefgh"[c] + ("2" if white else "7") + "abcdefgh"[c] + ("4" if white else "5")
+        out.append(("/".join(rows) + (" w" if white else " b") + " - - 0 1", mv))
+    return out
+
+
 def gen_cases(seed, salt, n_cases, plies):
     r = core.rng(seed, salt)
     cases = []
+    if salt in ("C01", "C02", "C03", "C04", "C11"):
+        for f, mv in ep_discovery_family(core.rng(seed, salt + "epdisc"), 40 if n_cases < 1000 else 1500):
+            cases.append(["new " + f, "obs", "moves c", "obs", "playh " + mv, "obs", "moves c", "obs", "moves u", "obs",
+                          "pushbias %d" % r.randrange(1 << 30), "obs", "moves c", "obs"])
     if salt in ("C16", "C03"):
         for f in threshold_family(core.rng(seed, salt + "threshold"), 120 if n_cases < 1000 else 5000):
             cases.append(gen_walk(r, f, 3))
@@ -282,6 +350,7 @@ def run(pid, rep, n_cases, plies):
         check_perft(rep, stats)
     if pid == "C04":
         check_reference_hashes(rep, stats)
+        check_frozen_keys(rep, stats, rust_obs=[o[0] for outs in rust for o in outs if o and "|" in o[0] and o[0].count("|") >= 5])
     stats["cases"] = len(cases)
     stats["corpus_cases"] = len(corpus)
     stats["distinct_positions"] = len(positions)
@@ -675,3 +744,138 @@ def check_reference_hashes(rep, stats):
         if got != h:
             rep.violation("impl-vs-spec", f"the hash of a position changed between versions: {got}, recorded {h} @ {f}", "",
                           replay_ops=["new " + f + " 0 1", "obs"])
+
+
+# ----------------------------------------------------------------------------- the frozen key set (C04)
+
+def frozen_keys():
+    import os
+    ks = [int(l, 16) for l in open(os.path.join(core.VERIF, "corpus", "C04_keys.txt"), encoding="utf-8") if l.strip() and not l.startswith("#")]
+    assert len(ks) == 1026
+    return ks
+
+
+PIECE_KIND = {c: i for i, c in enumerate("QRBNPKqrbnpk")}
+
+
+def frozen_hash(fen, ks):
+    """The Zobrist sum of a position (4 FEN fields) over the FROZEN keys, by the published rule: one key per square
+    (the piece's, or EMPTY_PLACE), BLACK_TO_MOVE when Black is to move, STATE[en-passant nibble | rights << 4]."""
+    parts = fen.split()
+    h = 0
+    rows = parts[0].split("/")
+    for ri, row in enumerate(rows):
+        col = 0
+        for ch in row:
+            if ch.isdigit():
+                for _ in range(int(ch)):
+                    h ^= ks[1]
+                    col += 1
+            else:
+                sq = (7 - ri) * 8 + col
+                h ^= ks[258 + sq * 12 + PIECE_KIND[ch]]
+                col += 1
+    if parts[1] == "b":
+        h ^= ks[0]
+    rights = sum(b for c, b in (("K", 1), ("Q", 2), ("k", 4), ("q", 8)) if c in parts[2])
+    ep = 8 if parts[3] == "-" else "abcdefgh".index(parts[3][0])
+    h ^= ks[2 + (ep | rights << 4)]
+    return h
+
+
+def key_witness(i):
+    """A position (FEN) whose hash uses key number i of the frozen list, or None when no importable position does."""
+    if i == 0:
+        return "4k3/8/8/8/8/8/8/4K3 b - - 0 1"
+    if i == 1:
+        return "4k3/8/8/8/8/8/8/4K3 w - - 0 1"
+    if i < 258:
+        b = i - 2
+        ep, rights = b & 15, b >> 4
+        if ep > 8:
+            return None
+        board = {(0, 4): "K", (7, 4): "k"}
+        if rights & 1: board[(0, 7)] = "R"
+        if rights & 2: board[(0, 0)] = "R"
+        if rights & 4: board[(7, 7)] = "r"
+        if rights & 8: board[(7, 0)] = "r"
+        epf = "-"
+        if ep < 8:
+            board[(4, ep)] = "p"
+            board[(4, ep + 1 if ep < 7 else ep - 1)] = "P"
+            epf = "abcdefgh"[ep] + "6"
+        rs = "".join(c for c, bit in (("K", 1), ("Q", 2), ("k", 4), ("q", 8)) if rights & bit) or "-"
+    else:
+        sq, kind = divmod(i - 258, 12)
+        r_, c_ = divmod(sq, 8)
+        ch = "QRBNPKqrbnpk"[kind]
+        if ch in "Pp" and r_ in (0, 7):
+            return None
+        board = {(r_, c_): ch}
+        spots = [(0, 4), (7, 4), (0, 0), (7, 7), (3, 0), (4, 7), (0, 7), (7, 0)]
+        for k in "Kk":
+            if k == ch:
+                continue
+            other = next((p_ for p_, v in board.items() if v in "Kk"), None)
+            s = next(s for s in spots if s not in board and (other is None or max(abs(s[0] - other[0]), abs(s[1] - other[1])) > 1))
+            board[s] = k
+        rs, epf = "-", "-"
+    rows = []
+    for row in range(7, -1, -1):
+        s, e = "", 0
+        for col in range(8):
+            x = board.get((row, col))
+            if x:
+                s += (str(e) if e else "") + x
+                e = 0
+            else:
+                e += 1
+        rows.append(s + (str(e) if e else ""))
+    return "/".join(rows) + " w " + rs + " " + epf + " 0 1"
+
+
+def check_frozen_keys(rep, stats, rust_obs=()):
+    """C04 'never varies between versions', completely: (1) every hash the implementation reported in this run is
+    recomputed from the FROZEN key list (corpus/C04_keys.txt) by the published rule; (2) the key set the compiler
+    evaluates now (the probe) is compared with the frozen one key by key, and for each key that differs a position
+    using it is imported and hashed — that position is the failing input."""
+    import json, os, subprocess
+    ks = frozen_keys()
+    n = 0
+    for line in rust_obs:
+        f = line.split("|")
+        try:
+            want = frozen_hash(f[0], ks)
+        except Exception:
+            continue
+        n += 1
+        if "%016X" % want != f[1] and n < 10 ** 9:
+            rep.violation("impl-vs-spec", f"the hash of a position is not the sum of the published keys: {f[1]}, published keys give {want:016X} @ {core.fen4(f[0])}",
+                          "", replay_ops=["new " + f[0], "obs"])
+            break
+    stats["hashes_recomputed_from_frozen_keys"] = n
+    try:
+        P = json.loads(subprocess.run([os.path.join(core.BUILD, "probe", "release", "chessprobe")], capture_output=True, text=True, timeout=60).stdout)
+        now = [P["BLACK_TO_MOVE"], P["EMPTY_PLACE"]] + P["STATE"] + P["PIECE"]
+    except Exception:
+        return
+    diff = [i for i in range(min(len(now), 1026)) if now[i] != ks[i]]
+    stats["keys_compared_with_frozen"] = 1026
+    stats["keys_differing_from_frozen"] = len(diff)
+    if not diff and len(now) == 1026:
+        return
+    wit = [(i, key_witness(i)) for i in diff[:400]]
+    wit = [(i, w) for i, w in wit if w][:8]
+    out, _ = core.run_rust([["new " + w, "obs"] for _, w in wit])
+    found = False
+    for (i, w), o in zip(wit, out):
+        if o[0] == ["ok"] and o[1] and "|" in o[1][0]:
+            got = o[1][0].split("|")[1]
+            want = "%016X" % frozen_hash(w, ks)
+            if got != want:
+                found = True
+                rep.violation("impl-vs-spec", f"published key #{i} changed: the hash of a position using it is {got}, the published keys give {want} @ {core.fen4(w)}",
+                              "", replay_ops=["new " + w, "obs"])
+    if not found:
+        rep.violation("extract", f"frozen-keys: {len(diff)} of the 1026 keys differ from the published set (first: #{diff[0] if diff else '?'})",
+                      "no importable position uses the changed keys", no_input=True)
